@@ -356,7 +356,7 @@ func class(err error) string {
 	return "other"
 }
 
-const blockAfter = 3 * time.Second
+const blockAfter = 8 * time.Second
 
 type rres struct {
 	n   int
